@@ -498,7 +498,11 @@ bool cmi_event_remove_waiter(const uint64_t key, const struct cmb_process *pp)
 {
     cmb_assert_release(event_queue != NULL);
     if (!cmi_hashheap_is_enqueued(event_queue, key)) {
-        /* The event has already happened or been cancelled, nobody is waiting for it */
+        /*
+         * The event has already happened or been cancelled, nobody is waiting
+         * for it anymore, but the wakeup may be on its way. Stop it.
+         */
+        (void)cmb_event_pattern_cancel(wakeup_event_event, pp, CMB_ANY_OBJECT);
         return false;
     }
 
